@@ -93,43 +93,135 @@ class Model:
 
     # -- reader cascade of _internal_parser
     def _cascade(self):
+        """the reader's line classification, read off the paths of the line loop of _internal_parser (helpers
+        inlined, locals substituted away): every path is described by the regex literals it decides on the
+        decoded line and by what it does to the pending field (curkey / content).  Result: list of regions
+          dict(lits=((regex name, mode, polarity), ...), kind='field'|'cont'|'skip'|'other', name=<display>,
+               key=<regex name or None>, content=('group', regex, group)|('const', text)|('other', text),
+               verbatim=bool, flush_ok=bool, subject=<text>)"""
         f = self.src.func('deb822:Deb822._internal_parser')
         self.rep.saw_func(f)
-        loops = [s for s in f.node.body if isinstance(s, ast.For)]
+        fnode, _inl = normalize.inline_helpers(f)
+        loops = [s for s in fnode.body if isinstance(s, ast.For)]
         if len(loops) != 1:
             raise AnalysisError('%s: expected one line loop' % f.site)
         loop = loops[0]
         self.parser_loop = loop
         self.parser_func = f
-        out = []
-        body = loop.body
-        i = 0
-        linevar = None
-        while i < len(body):
-            st = body[i]
-            if isinstance(st, ast.Assign) and isinstance(st.value, ast.Call) and isinstance(st.value.func, ast.Attribute) \
-                    and st.value.func.attr in ('match', 'fullmatch', 'search') and isinstance(st.value.func.value, ast.Attribute) \
-                    and norm(st.value.func.value.value) in ('self', 'cls', 'Deb822'):
-                name = st.value.func.value.attr
-                mode = st.value.func.attr
-                mvar = norm(st.targets[0])
-                subject = norm(st.value.args[0])
-                linevar = linevar or subject
-                if subject != linevar:
-                    raise AnalysisError('%s: cascade regexes are applied to different subjects' % f.site)
-                if i + 1 >= len(body) or not (isinstance(body[i + 1], ast.If) and norm(body[i + 1].test) == mvar and not body[i + 1].orelse):
-                    raise AnalysisError('%s: `%s` is not followed by `if %s:`' % (f.site, norm(st), mvar))
-                blk = body[i + 1]
-                kind = 'field' if any(isinstance(s, ast.Assign) and norm(s.targets[0]) == 'curkey' and 'group' in norm(s.value)
-                                      for s in walk_no_nested(blk)) else 'cont'
-                out.append(dict(name=name, mode=mode, mvar=mvar, block=blk, kind=kind, stmt=st))
-                i += 2
-                continue
-            i += 1
-        if len(out) < 3:
-            raise AnalysisError('%s: fewer than three regex branches in the line loop' % f.site)
-        self.linevar = linevar
+        self.parser_node = fnode
+        folder = paths.Folder(paths.module_consts(f.module, f.cls or ''))
+        ps = paths.Enumerator(folder).run(loop.body, [paths.Path()])
+        self.rep.analysed['paths'] += len(ps)
+
+        def regex_call(e):
+            """(name, mode, subject) for self.<R>.match(<subject>)"""
+            if isinstance(e, ast.Call) and isinstance(e.func, ast.Attribute) and e.func.attr in ('match', 'fullmatch', 'search') \
+                    and isinstance(e.func.value, ast.Attribute) and norm(e.func.value.value) in ('self', 'cls', 'Deb822') and len(e.args) == 1:
+                return e.func.value.attr, e.func.attr, norm(e.args[0])
+            return None
+
+        def regex_literal(t, pol):
+            e = t
+            if isinstance(t, ast.Compare) and len(t.ops) == 1 and isinstance(t.comparators[0], ast.Constant) and t.comparators[0].value is None \
+                    and isinstance(t.ops[0], (ast.Is, ast.IsNot)):
+                e = t.left
+                if isinstance(t.ops[0], ast.Is):
+                    pol = not pol
+            rc = regex_call(e)
+            return None if rc is None else (rc[0], rc[1], pol, rc[2])
+
+        def flat_add(e, out):
+            if isinstance(e, ast.BinOp) and isinstance(e.op, ast.Add):
+                flat_add(e.left, out)
+                flat_add(e.right, out)
+            else:
+                out.append(e)
+            return out
+        regions = {}
+        subjects = set()
+        for p_ in ps:
+            if p_.outcome is not None and p_.outcome[0] not in ('continue',):
+                if p_.outcome[0] == 'raise':
+                    continue
+                raise AnalysisError('%s: the line loop is left by %s' % (f.site, p_.outcome[0]))
+            lits = []
+            pending = None
+            for t, pol in p_.conds:
+                rl = regex_literal(t, pol)
+                if rl is not None:
+                    lits.append(rl[:3])
+                    subjects.add(rl[3])
+                elif norm(t) == 'curkey':
+                    pending = pol
+            ck = p_.env.get('curkey')
+            ct = p_.env.get('content')
+            flushed = any(e[0] == 'store' and e[1] == 'self[curkey]' and norm(e[2]) == 'content' for e in p_.events)
+            odd_store = [e for e in p_.events if e[0] == 'store' and e[1].startswith('self[') and not (e[1] == 'self[curkey]' and norm(e[2]) == 'content')]
+            kind, key, content, verbatim = 'skip', None, None, False
+            if ck is not None and isinstance(ck, ast.Call) and isinstance(ck.func, ast.Attribute) and ck.func.attr == 'group' and regex_call(ck.func.value):
+                kind = 'field'
+                key = (regex_call(ck.func.value)[0], ck.args[0].value if ck.args and isinstance(ck.args[0], ast.Constant) else None)
+                if ct is None:
+                    content = ('other', 'the previous content')
+                elif isinstance(ct, ast.Constant) and isinstance(ct.value, str):
+                    content = ('const', ct.value)
+                elif isinstance(ct, ast.Call) and isinstance(ct.func, ast.Attribute) and ct.func.attr == 'group' and regex_call(ct.func.value) \
+                        and ct.args and isinstance(ct.args[0], ast.Constant):
+                    content = ('group', regex_call(ct.func.value)[0], ct.args[0].value)
+                else:
+                    content = ('other', norm(ct))
+            elif ck is not None and isinstance(ck, ast.Constant) and ck.value is None:
+                kind = 'unwanted'
+            elif ck is not None:
+                kind, content = 'other', ('other', 'curkey = ' + norm(ck))
+            elif ct is not None:
+                parts = flat_add(ct, [])
+                kind = 'cont'
+                verbatim = len(parts) == 3 and norm(parts[0]) == 'content' and isinstance(parts[1], ast.Constant) and parts[1].value == '\n' \
+                    and norm(parts[2]) in subjects
+                content = ('other', norm(ct))
+            flush_ok = True
+            if kind in ('field', 'unwanted', 'other') and pending is not False:
+                flush_ok = flushed and pending is True
+            if odd_store:
+                flush_ok = False
+            k = (tuple(lits), kind, key, content if kind != 'cont' else ('cont', verbatim))
+            r = regions.get(k)
+            if r is None:
+                pos = [n for n, _m, pol in lits if pol]
+                r = regions[k] = dict(lits=tuple(lits), kind=kind, key=key, content=content, verbatim=verbatim, flush_ok=True,
+                                      name='+'.join(pos) if pos else 'no regex', paths=[])
+                if key is not None:
+                    r['mode'] = [m for n, m, pol in lits if n == key[0] and pol][0] if any(n == key[0] and pol for n, m, pol in lits) else None
+            r['flush_ok'] = r['flush_ok'] and flush_ok
+            r['paths'].append(p_)
+        if len(subjects) != 1:
+            raise AnalysisError('%s: the reader regexes are applied to %d different subjects' % (f.site, len(subjects)))
+        self.linevar = subjects.pop()
+        out = [r for r in regions.values() if r['kind'] != 'unwanted']
+        self.unwanted = [r for r in regions.values() if r['kind'] == 'unwanted']
+        if len([r for r in out if r['kind'] in ('field', 'cont')]) < 3:
+            raise AnalysisError('%s: fewer than three acting line classes in the line loop' % f.site)
+        for r in out:
+            for n, _m, _p in r['lits']:
+                if n not in self.rx:
+                    reg = self.src.regex(MOD, n, cls='Deb822')
+                    pat, fl = reg['pattern'], reg['flags']
+                    if isinstance(pat, bytes):
+                        pat = rx.bytes_pattern_as_str(pat)
+                        fl |= re.ASCII
+                    self.rx[n] = (pat, fl)
         return out
+
+    def region_lang(self, br):
+        k = ('region', br['lits'])
+        if k not in self._langs:
+            lang = rx.sigma_star(self.alpha)
+            for n, m, pol in br['lits']:
+                L = self.L(n, m)
+                lang = lang.intersect(L if pol else L.complement())
+            self._langs[k] = lang
+        return self._langs[k]
 
     # -- dump template
     def dump_worlds(self):
